@@ -362,6 +362,49 @@ def run(ctx):
                           key=f"R5.4:{cname}.{fn.name}:store-before-raise")
     ctx.floor("R5.4", "non-constructor methods of field types that both store and raise", n_methods, 3)
 
+    # ------------------------------------------------------------------ R5.8 validated state has one writer
+    ctx.rule("R5.8", "the private attributes a validating property setter of a field type writes are written nowhere else in the package "
+                     "(not by _unpack, not by another method, not from outside): every value reaches them through the setter's checks")
+    n_guarded = 0
+    for cls in fieldtype_classes(prog):
+        setters = [fn for fn in prog.methods_of(cls).values() if any(isinstance(d, ast.Attribute) and d.attr == "setter" for d in fn.decorator_list)
+                   and any(isinstance(n, ast.Raise) for n in walk_no_nested(fn))]
+        if not setters:
+            continue
+        cname = qualname_of(cls).replace("flow.record.fieldtypes.", "")
+        short = cls.name.lstrip("_")
+
+        def mangled(attr, in_cls):
+            return f"_{in_cls.name.lstrip('_')}{attr}" if in_cls is not None and attr.startswith("__") and not attr.endswith("__") else attr
+
+        guarded = set()
+        for fn in setters:
+            for n in ast.walk(fn):
+                if isinstance(n, ast.Attribute) and isinstance(n.ctx, ast.Store) and isinstance(n.value, ast.Name) and n.value.id == func_params(fn)[0]:
+                    guarded.add(mangled(n.attr, cls))
+        n_guarded += len(guarded)
+        setter_ids = {id(fn) for fn in setters}
+        for m in prog.modules.values():
+            for n in ast.walk(m.tree):
+                if not (isinstance(n, ast.Attribute) and isinstance(n.ctx, (ast.Store, ast.Del))):
+                    continue
+                owner_fn = enclosing_function(n)
+                owner_cls = n
+                while owner_cls is not None and not isinstance(owner_cls, ast.ClassDef):
+                    owner_cls = getattr(owner_cls, "_parent", None)
+                if mangled(n.attr, owner_cls) not in guarded:
+                    continue
+                if owner_fn is not None and id(owner_fn) in setter_ids:
+                    continue
+                if owner_fn is None and owner_cls is cls:
+                    continue  # class-level defaults
+                where = qualname_of(owner_fn).replace("flow.record.", "") if owner_fn is not None else m.modname
+                ctx.fail("R5.8", f"{cname}:{n.attr}:written-in:{where}", f"`{norm(n)}` is stored in {where}, outside the validating setters of {cname}: a malformed value "
+                         "(wrong length, wrong kind) can be put into the object without the checks every assignment goes through", n,
+                         key=f"R5.8:{cname}:{n.attr.lstrip('_')}:bypass:{where}")
+        ctx.check(True, "R5.8", f"{cname}:guarded-state", "", cls, f"{sorted(guarded)} written only by {sorted(fn.name for fn in setters)}")
+    ctx.floor("R5.8", "private attributes guarded by validating setters", n_guarded, 6)
+
     check_naive_utc(ctx, "R5.5")
 
     # ------------------------------------------------------------------ R5.6 text input conversion
@@ -458,8 +501,34 @@ def run(ctx):
         ctx.check(not passthrough, "R5.7", f"typedlist._convert:return {norm(v)[:30]}", f"`return {norm(v)}` hands the input back without looking at its elements: elements of another (e.g. base) "
                   "type stay unconverted in the typed list", rt, "every return is built by the element-wise conversion", key="R5.7:typedlist._convert:input-returned")
     tinit = ctx.anchor_func("flow.record.fieldtypes.typedlist.__init__")
-    ctx.check(any(norm(c.func) == "self._convert" for c in calls_in(tinit)), "R5.7", "typedlist.__init__:converts",
-              "the constructor does not convert its elements", tinit, "constructor calls self._convert(values)")
+    # what initialises the underlying list: every value that can reach `super().__init__(X)` is the result of self._convert(...) or an empty literal
+    ticfg = CFG(tinit)
+    inits = [c for c in calls_in(tinit) if isinstance(c.func, ast.Attribute) and c.func.attr == "__init__" and isinstance(c.func.value, ast.Call) and call_name(c.func.value) == "super"]
+    ctx.floor("R5.7", "list initialisations in typedlist.__init__", len(inits), 1)
+
+    def converted(e, at, depth=0):
+        if isinstance(e, ast.Call) and norm(e.func) == "self._convert":
+            return True, ""
+        if isinstance(e, (ast.List, ast.Tuple)) and not e.elts:
+            return True, ""
+        if isinstance(e, ast.Name) and depth < 6:
+            for d in ticfg.reaching_defs(e.id).get(at, set()):
+                if d == ticfg.entry:
+                    return False, f"the caller's `{e.id}` itself (no conversion on that path)"
+                da = ticfg.nodes[d].ast
+                if not (isinstance(da, ast.Assign) and len(da.targets) == 1 and isinstance(da.targets[0], ast.Name)):
+                    return False, norm(da)[:60]
+                ok_, why_ = converted(da.value, d, depth + 1)
+                if not ok_:
+                    return False, why_
+            return True, ""
+        return False, norm(e)[:60]
+
+    for ic in inits:
+        at = ticfg.node_of(ic).id
+        ok_, why_ = converted(ic.args[0], at) if len(ic.args) == 1 else (False, "no single initialiser")
+        ctx.check(ok_, "R5.7", "typedlist.__init__:converts", f"the list is initialised from {why_}: elements that are not of the element type (e.g. those of a typed list of "
+                  "another type) are stored as they are", ic, "super().__init__(self._convert(values)) on every path", key="R5.7:typedlist.__init__:unconverted-initialiser")
     tun = ctx.anchor_func("flow.record.fieldtypes.typedlist._unpack")
     rets = [n for n in walk_no_nested(tun) if isinstance(n, ast.Return)]
     ctx.check(all(isinstance(r.value, ast.Call) and norm(r.value.func) == "cls" for r in rets) and rets, "R5.7", "typedlist._unpack:constructs",
